@@ -278,6 +278,8 @@ where
     /// Return [`GraphError::NodeIxLimit`] if the `StableGraph` is at the maximum number of nodes for its index.
     pub fn try_add_node(&mut self, weight: N) -> Result<NodeIndex<Ix>, GraphError> {
         if self.free_node != NodeIndex::end() {
+            #[cfg(feature = "verif-hooks")]
+            crate::verif::hit(crate::verif::Site::stable_reuse_vacant_node);
             let node_idx = self.free_node;
             self.occupy_vacant_node(node_idx, weight);
             Ok(node_idx)
@@ -290,6 +292,8 @@ where
 
     /// free_node: Which free list to update for the vacancy
     fn add_vacant_node(&mut self, free_node: &mut NodeIndex<Ix>) {
+        #[cfg(feature = "verif-hooks")]
+        crate::verif::hit(crate::verif::Site::stable_add_vacant_node);
         let node_idx = self.g.add_node(None);
         // link the free list
         let node_slot = &mut self.g.nodes[node_idx.index()];
@@ -415,6 +419,8 @@ where
                 if let Some(i) = wrong_index {
                     return Err(GraphError::NodeMissed(i));
                 }
+                #[cfg(feature = "verif-hooks")]
+                crate::verif::hit(crate::verif::Site::stable_reuse_vacant_edge);
                 edge_idx = self.free_edge;
                 edge = &mut self.g.edges[edge_idx.index()];
                 let _old = replace(&mut edge.weight, Some(weight));
@@ -1111,9 +1117,44 @@ where
         self.occupy_vacant_node(node_ix, N::default());
     }
 
+    /// Verification hook: read-only dump of the private bookkeeping
+    /// (`free_node`, `free_edge`, `node_count`, `edge_count`, and per slot
+    /// `(is_vacant, next[0], next[1])` for nodes and edges).
+    #[cfg(feature = "verif-hooks")]
+    #[allow(clippy::type_complexity)]
+    pub fn verif_raw(
+        &self,
+    ) -> (
+        usize,
+        usize,
+        usize,
+        usize,
+        alloc::vec::Vec<(bool, usize, usize)>,
+        alloc::vec::Vec<(bool, usize, usize)>,
+    ) {
+        (
+            self.free_node.index(),
+            self.free_edge.index(),
+            self.node_count,
+            self.edge_count,
+            self.g
+                .nodes
+                .iter()
+                .map(|n| (n.weight.is_none(), n.next[0].index(), n.next[1].index()))
+                .collect(),
+            self.g
+                .edges
+                .iter()
+                .map(|e| (e.weight.is_none(), e.next[0].index(), e.next[1].index()))
+                .collect(),
+        )
+    }
+
     #[cfg(feature = "serde-1")]
     /// Fix up node and edge links after deserialization
     fn link_edges(&mut self) -> Result<(), NodeIndex<Ix>> {
+        #[cfg(feature = "verif-hooks")]
+        crate::verif::hit(crate::verif::Site::serde_link_edges_stable);
         // set up free node list
         self.node_count = 0;
         self.edge_count = 0;
